@@ -835,6 +835,11 @@ class C02(PersistProfile):
         "peer file loaded; distinct by op-kind sequence hash."
     )
 
+    def config(self, r):
+        c = PersistProfile.config(self, r)
+        c["cross_module_refs"] = r.choice(["none", "backward", "backward"])
+        return c
+
     def nontrivial(self, w):
         return w.counters["probe:saves"] > 0 and w.counters["probe:peer_files"] > 0 and w.counters["probe:loads_checked"] > 0
 
@@ -863,6 +868,11 @@ class C09(PersistProfile):
         "op-kind sequence hash. (Negative direction - dangling / ill-typed reference -> DeserializationError - is decided by "
         "the fault enumeration shared with C17.)"
     )
+
+    def config(self, r):
+        c = PersistProfile.config(self, r)
+        c["cross_module_refs"] = r.choice(["none", "backward", "backward"])
+        return c
 
     def nontrivial(self, w):
         return w.counters["c09:loads_checked"] > 0
